@@ -17,7 +17,7 @@
    type(x).__name__, str(x), repr(x) (these are CPython's, supplied by the harness projection).
    Strings are Coq byte strings (UTF-8); String.compare is byte-lexicographic, which for UTF-8
    coincides with Python's code-point order. *)
-From Coq Require Import List String Ascii Bool Arith ZArith.
+From Coq Require Import List String Ascii Bool Arith ZArith Permutation.
 Import ListNotations.
 Local Open Scope string_scope.
 
@@ -261,7 +261,7 @@ Definition sort_tup (v : value) : value :=
 Definition post_tup (v : value) : value :=
   match v with VTup l => VTup (post_init l) | _ => v end.
 
-(* node_class(*new_children): only the _SetOfTypes classes have a __post_init__ *)
+(* node_class( *new_children ): only the _SetOfTypes classes have a __post_init__ *)
 Definition rebuild (c : string) (fs : list (string * value)) : list (string * value) :=
   if is_setof c
   then map (fun p => (fst p, if fst p =? "type_list" then post_tup (snd p) else snd p)) fs
@@ -278,7 +278,7 @@ Definition visit (c : string) (fs : list (string * value)) : list (string * valu
           else snd p)) fs.
 
 (* _VisitNode: post-order; tuples are mapped; classes outside visit_class_names are returned
-   as they are.  The `changed` flag of the real code only decides whether node_class(...) is
+   as they are.  The `changed` flag of the real code only decides whether node_class( ... ) is
    called again, which is unobservable except through __post_init__; [rebuild] always applies it,
    which agrees with the real code on every value whose set-types are already flattened and
    duplicate-free (true of everything the pytd constructors can build; monitored). *)
@@ -403,7 +403,7 @@ Inductive deep_perm : value -> value -> Prop :=
                (deep_perm (snd p) (snd q) \/
                 (sorts c (visited_children fs) (fst p) = true /\
                  exists l l1 l', snd p = VTup l /\ Forall2 deep_perm l l1 /\
-                                 Permutation.Permutation l1 l' /\ snd q = VTup l'))) fs fs' ->
+                                 Permutation l1 l' /\ snd q = VTup l'))) fs fs' ->
     deep_perm (VNode c fs) (VNode c fs').
 
 (* ------------------------------------------------------------------------------------------ *)
@@ -493,7 +493,7 @@ Fixpoint list_eqb (a b : list ascii) : bool :=
 Definition ends_with (s suf : string) : bool :=
   let a := list_ascii_of_string s in
   let b := list_ascii_of_string suf in
-  (length b <=? length a) && list_eqb (skipn (length a - length b) a) b.
+  (List.length b <=? List.length a)%nat && list_eqb (skipn (List.length a - List.length b) a) b.
 
 (* left[len(TRACEBACK_MARKER):] if left else "" *)
 Definition strip_marker (t : option string) : string :=
@@ -522,7 +522,7 @@ Fixpoint scan (cur : error) (prevs kept_rev : list error) : bool * list error :=
       | None => scan cur rest (p :: kept_rev)                 (* continue *)
       | Some c => if (c <? 0)%Z
                   then scan cur rest kept_rev                  (* errors.remove(previous_error) *)
-                  else (true, rev kept_rev ++ p :: rest)       (* break: current is discarded *)
+                  else (true, (rev kept_rev ++ p :: rest)%list)       (* break: current is discarded *)
       end
   end.
 
@@ -530,7 +530,7 @@ Fixpoint scan (cur : error) (prevs kept_rev : list error) : bool * list error :=
 Definition add_to_group (cur : error) (errs : list error) : list error :=
   let '(broke, errs') := scan cur errs [] in
   if broke then errs'
-  else if length errs' <? MAX_TRACEBACKS then errs' ++ [cur] else errs'.
+  else if (List.length errs' <? MAX_TRACEBACKS)%nat then (errs' ++ [cur])%list else errs'.
 
 (* unique_errors: an insertion-ordered dict from unique representation to its list of errors *)
 Definition groups := list ((position * string * option string * string) * list error).
@@ -547,4 +547,4 @@ Definition group_all (es : list error) : groups :=
 
 (* ErrorLog.unique_sorted_errors: sum(unique_errors.values(), []) *)
 Definition unique_sorted_errors (es : list error) : list error :=
-  concat (map snd (group_all (sorted_errors es))).
+  List.concat (map snd (group_all (sorted_errors es))).
